@@ -381,8 +381,11 @@ CLEANUP:
 	/* free the last allocated basis, and if we wanted to save it, do so */
 	if (basis)
 	{
-		if (writebasis)
-			rval = mpq_QSwrite_basis (p_mpq, 0, writebasis);
+		/* write the basis the solver handed back; without one (the problem is not
+		 * optimal, or could not be read) there is nothing to write, which is not
+		 * an error of its own */
+		if (writebasis && p_mpq && !rval && (basis->nstruct > 0 || basis->nrows > 0))
+			rval = mpq_QSwrite_basis (p_mpq, basis, writebasis);
 	}
 	mpq_QSfree_basis (basis);
 	mpq_QSfree_prob (p_mpq);
